@@ -90,7 +90,7 @@ def run(module: str, cfg: str | None = None, *, workers: int = 8, heap: str = "2
     cfg = cfg or (module + ".cfg")
     cfg_path = cfg if os.path.isabs(cfg) else os.path.join(spec_dir, cfg)
     scratch = tempfile.mkdtemp(prefix="pvtlc_")
-    props = {}
+    props = {"java.io.tmpdir": scratch}           # TLC unpacks its standard modules into a temp directory per run: keep it in the scratch
     if dfs:
         props["tlc2.tool.queue.IStateQueue"] = "StateDeque"
     cmd = _java_cmd(workers, heap, props) + ["-workers", str(workers), "-metadir", os.path.join(scratch, "meta"),
